@@ -1,12 +1,14 @@
 import Hls.Proofs.LineRTMore
+import Hls.Proofs.LineRTAttr
 import Hls.Props.C10
 /-!
 # Every line the media writer emits reads back (`LineRT`), from conditions on the VALUE
 
 `MediaWF p` lists, field by field, the values for which the text form is faithful (C18's domain):
 quotable strings, integers below 2^64, well-formed ranges, keys in `DecryptionKey.WF`, and — as
-explicit hypotheses — the facts about decimal seconds (FL2) and about the tags whose round trip
-is not proved here (EXT-X-START, EXT-X-DATERANGE) and the verbatim lines (URI, unknown tags).
+explicit hypotheses — the facts about Rust's float formatting (FL2 for decimal seconds, FL1 for the
+EXT-X-START offset), the one tag whose line-level round trip is not proved here (EXT-X-DATERANGE) and the
+verbatim lines (URI, unknown tags; derived for parsed values in `ParsedWF`).
 -/
 namespace Hls
 
@@ -24,7 +26,7 @@ structure MediaWF (p : MediaPlaylist) : Prop where
   target : p.target_duration % nanosPerSec = 0 ∧ p.target_duration / nanosPerSec < 2 ^ 64
   mseq : p.media_sequence < 2 ^ 64
   dseq : p.discontinuity_sequence < 2 ^ 64
-  start : ∀ s, p.start = some s → LineRT (.start s)
+  start : ∀ s, p.start = some s → FloatRT s.time_offset
   unknown : ∀ u ∈ p.unknown, LineRT (.unknown u)
   segs : ∀ s ∈ p.segments, SegWF s
 
@@ -75,7 +77,7 @@ theorem header_lineRT (p : MediaPlaylist) (wf : MediaWF p) : ∀ l ∈ p.headerL
   · split at hl <;> simp at hl; subst hl; exact lineRT_iFramesOnly
   · split at hl <;> simp at hl; subst hl; exact lineRT_independentSegments
   · split at hl
-    · rename_i s hs; simp at hl; subst hl; exact wf.start s hs
+    · rename_i s hs; simp at hl; subst hl; exact lineRT_start s (wf.start s hs)
     · simp at hl
 
 theorem segment_lineRT (s : MediaSegment) (wf : SegWF s) : ∀ l ∈ s.writeLines, LineRT l := by
